@@ -51,7 +51,14 @@ def gen_cases(tier, seed):
                 for trailing in ((), (3,)):
                     for be in b["backends"]:
                         yield {"basis": basis, "dtype": dt, "nchan": nchan, "align": align, "trailing": list(trailing),
-                               "backend": be, "vals": b["vals"]}
+                               "backend": be, "vals": b["vals"], "scale": 1.0}
+    # the conversions are scale-free: the same grid at very small and very large magnitudes (powers of two: exact scaling)
+    for basis in ("linear", "circular"):
+        for dt, scales in (("complex128", (2.0 ** -43, 2.0 ** -30, 2.0 ** 36)), ("complex64", (2.0 ** -43, 2.0 ** 36))):
+            for sc in scales:
+                for be in ("numpy", "dask1"):
+                    yield {"basis": basis, "dtype": dt, "nchan": 2, "align": "bottom", "trailing": [], "backend": be,
+                           "vals": b["vals"], "scale": sc}
 
 
 def grid(vals):
@@ -63,6 +70,7 @@ def grid(vals):
 
 def build(case):
     A, B = grid(case["vals"])
+    A, B = A * case.get("scale", 1.0), B * case.get("scale", 1.0)
     n = len(A)
     nchan, trailing = case["nchan"], tuple(case["trailing"])
     base = np.stack([A, B], axis=1)                       # (n, 2)
@@ -128,7 +136,9 @@ def check_case(case):
     amp = float(np.max(np.abs(AL))) * (2.0 if trailing else 1.0) * 2
     tol1 = 8 * eps * amp
     tol2 = 16 * eps * amp * amp
-    key = (case["basis"], case["dtype"], case["nchan"], case["align"], trailing, case["backend"])
+    key = (case["basis"], case["dtype"], case["nchan"], case["align"], trailing, case["backend"], case.get("scale", 1.0))
+    if case.get("scale", 1.0) != 1.0:
+        res.hits["very small / very large magnitudes"] += 1
     res.states |= {hash(key + (i,)) for i in range(len(A))}
 
     def meta_ok(out, site, want_type, pol=None):
@@ -279,7 +289,7 @@ def check_case(case):
 def main(argv=None):
     return report.run_check(
         PID, gen_cases=gen_cases, check_case=check_case, describe=describe,
-        required_hits=["identity when already in basis", "Stokes from the other basis", "component by name", "component read, in-place write, component read",
+        required_hits=["identity when already in basis", "Stokes from the other basis", "component by name", "component read, in-place write, component read", "very small / very large magnitudes",
                        "trailing dimension", "non-center alignment", "dask backend"],
         assumptions=["inputs are dyadic rationals so the formulas are exact up to the final 1/sqrt2; budget 8 eps(dtype) max|.| "
                      "(16 eps max^2 for quadratic quantities)"],
